@@ -5,9 +5,10 @@ harness-controlled random source (L1), and the printed `{ k: p% }`, `mean(..)`,
 `roll(..)` (L2, public API) against the extracted model and against an
 independent Python specification (inclusion-exclusion count of dice tuples,
 dictionary convolution over Fractions)."""
-import json, re, struct
+import json, os, re, shutil, struct
 from fractions import Fraction as F
 from math import comb
+import vlib
 from vlib import sx, Sym, parse_sx, try_parse
 
 TRUSTED_BASE = [
@@ -255,6 +256,38 @@ def pct_candidates(p):
         return {fl, fl + 1}, True
     return {h}, False
 
+# ---------------------------------------------------------------- thorough proof step
+
+CONE = ['Base/Prelude.v', 'Dist/Dice.v', 'Dist/DiceProofs.v', 'Dist/DiceDie.v', 'Dist/DiceEval.v', 'Dist/DiceSample.v',
+        'Dist/DiceTheorems.v', 'Properties/C17.v']
+
+def fresh_proof(c):
+    """thorough tier: rebuild exactly the cone of Properties/C17.v from the sources in a fresh directory (independent of
+    what else is listed in coq/_CoqProject or tracked by git) and run coqchk on it"""
+    fresh = os.path.join(vlib.CACHE, 'fresh_C17')
+    shutil.rmtree(fresh, ignore_errors=True)
+    for rel in CONE:
+        dst = os.path.join(fresh, rel)
+        os.makedirs(os.path.dirname(dst), exist_ok=True)
+        shutil.copy(os.path.join(vlib.COQ, rel), dst)
+    with open(os.path.join(fresh, '_CoqProject'), 'w') as fh:
+        fh.write('-Q . FendV\n-arg -w -arg -notation-overridden,-deprecated-hint-without-locality,-deprecated-instance-without-locality\n' + '\n'.join(CONE) + '\n')
+    rc, out = vlib.sh('coq_makefile -f _CoqProject -o Makefile && make -j%d Properties/C17.vo' % vlib.NPROC, cwd=fresh, timeout=7200)
+    res = {'fresh_rebuild': rc == 0, 'cone': CONE}
+    if rc != 0:
+        c.proof_failed = {'stage': 'fresh-rebuild', 'where': fresh, 'log': out[-3000:]}
+        c.extra['thorough_proof'] = res
+        return res
+    rc, out = vlib.sh(['coqchk', '-silent', '-o', '-Q', fresh, 'FendV', 'FendV.Properties.C17'], cwd=fresh, timeout=7200)
+    res['coqchk'] = rc == 0
+    res['coqchk_report'] = [l.strip() for l in out.splitlines() if l.strip()][-12:]
+    if rc != 0:
+        c.proof_failed = {'stage': 'coqchk', 'where': fresh, 'log': out[-3000:]}
+    else:
+        shutil.rmtree(fresh, ignore_errors=True)
+    c.extra['thorough_proof'] = res
+    return res
+
 # ---------------------------------------------------------------- the check
 
 def check(c):
@@ -264,7 +297,7 @@ def check(c):
               'distinct by expression text; random source probed at 0, 1, 2, 2^32-2, 2^32-1, a 16-point grid, 4 random values and every cumulative weight -1/0/+1')
     ok = c.proof(['C17'], extra_targets=['Extract/XDist.vo'])
     if c.tier == 'thorough' and ok:
-        c.thorough_proof(['C17'])
+        fresh_proof(c)
     r = c.rng
     cases, pairs_max = gen_cases(c)
     texts = [text(e) for e, _ in cases]
